@@ -49,6 +49,22 @@ def expected_members(problem: dict, zone_path: tuple) -> List[int]:
     return out
 
 
+def members_of_zone(problem: dict, zone_path: tuple, zone) -> List[int]:
+    """expected_members, extended to generated Unit Operation leaves (their path ends in a generated name that no label
+    contains): for those the zone's own stream objects are traced back to the inputs by (name, temperatures, |duty|)."""
+    idxs = expected_members(problem, zone_path)
+    if idxs or getattr(zone, "identifier", "") != "Unit Operation":
+        return idxs
+    out = []
+    for s in list(zone.hot_streams) + list(zone.cold_streams):
+        for i, sd in enumerate(problem["streams"]):
+            ts, tt, q, dt = st_of(sd)
+            if sd["name"] == s.name and abs(ts - s.t_supply) < 1e-9 and abs(abs(q) - abs(s.heat_flow)) < 1e-9 and i not in out:
+                out.append(i)
+                break
+    return out
+
+
 def st_of(sd: dict) -> tuple:
     def v(x):
         return x["value"] if isinstance(x, dict) else x
